@@ -62,6 +62,9 @@ var alphabet = []symbol{
 	// the NAME of a controller that is stored already, a NEW key, signed with the STORED controller's key (not with the key
 	// that is delivered): nobody proved to own the delivered key
 	{"exchange", "stored-name-new-key-signed-by-stored-key"},
+	// genuine in every respect, but sealed under the key of the PREVIOUS exchange of this connection (one that was proved
+	// and then abandoned by a new start): the proof belongs to another exchange
+	{"exchange", "genuine-for-the-previous-exchange"},
 	{"step", "0"}, {"step", "7"}, {"step", "255"}, {"method", "1"}, {"method", "3"}, {"method", "4"},
 	// a complete, consistent SRP run with a password anybody can know (see publicGuesses); the key exchange that follows is
 	// sealed under the key of THAT run
@@ -97,6 +100,7 @@ type peer struct {
 	started bool
 	srp     *refctl.SRPClient // computed for (salt, B) with the right code
 	proofOK bool              // the accessory answered our right proof with a valid server proof, since the last accepted start
+	prevSrp *refctl.SRPClient // the proved run of the exchange BEFORE the last accepted start (nil when that one was not proved)
 	me      *refctl.Identity
 }
 
@@ -317,6 +321,15 @@ func build(w *world, p *peer, s symbol) built {
 			b.name = "admin-" + me.ID
 			b.msg = refctl.SetupM5(encKey, e.Bytes(refctl.TagIdentifier, []byte(b.name)).Bytes(refctl.TagPublicKey, me.LTPK).Bytes(refctl.TagSignature, ed25519.Sign(me.LTSK, info)).B)
 			return b
+		case "genuine-for-the-previous-exchange":
+			pk := make([]byte, 64) // (no previous proved exchange: a key nobody agreed on)
+			w.rnd.Read(pk)
+			if p.prevSrp != nil && p.prevSrp.K != nil {
+				pk = p.prevSrp.K
+				run.Count("exchanges_sealed_under_the_key_of_the_previous_proved_exchange", 1)
+			}
+			b.msg = refctl.SetupM5(refctl.SetupEncKey(pk), refctl.SetupM5Plain(pk, me.ID, me.LTPK, me.LTSK))
+			return b
 		case "stored-name-new-key-signed-by-stored-key":
 			old := w.lastIdentity
 			if old == nil {
@@ -348,6 +361,10 @@ func build(w *world, p *peer, s symbol) built {
 
 // applyResponse updates the controller-side state from the accessory's answer.
 func applyResponse(w *world, p *peer, s symbol, b built, status int, body []byte, dropped bool) {
+	// whatever the answer: a start sent after a proved run makes that run "the previous exchange"
+	if s.Kind == "start" && p.proofOK && p.srp != nil {
+		p.prevSrp = p.srp
+	}
 	if dropped || status != 200 {
 		return
 	}
@@ -628,7 +645,7 @@ func randomCode(rnd *rand.Rand) string {
 func main() {
 	run = vf.Start("C02", "exploration")
 	r := run
-	r.SetRule("a history = (setup code, controller identities, 1 or 2 connections sharing one database, sequence over the pair-setup alphabet of 37 symbols (6 of them complete SRP runs with a password anybody can know: accessory id / name, empty, the SRP user name, the code's digits, the library's default pin)); every sequence up to length 2 (quick) / 3 (thorough) over a 16-symbol core alphabet, " +
+	r.SetRule("a history = (setup code, controller identities, 1 or 2 connections sharing one database, sequence over the pair-setup alphabet of 38 symbols (6 of them complete SRP runs with a password anybody can know: accessory id / name, empty, the SRP user name, the code's digits, the library's default pin)); every sequence up to length 2 (quick) / 3 (thorough) over a 16-symbol core alphabet, " +
 		"the known critical prefixes followed by every symbol, and random sequences of length 3..8; after every message the stored entities are compared with the previous snapshot; non-trivial = distinct (harness, connections, sequence)")
 	r.Assume("the monitor builds every message itself and therefore knows whether the connection proved knowledge of the setup code; crypto/ed25519, x/crypto AEAD are correct")
 	r.Watchdog(time.Duration(r.Pick(20, 90)) * time.Minute)
@@ -778,6 +795,12 @@ func main() {
 		inprocDo(append([]symbol{{"start", ""}, {"verify", "right"}, {"start", ""}}, tail...), 1)
 		inprocDo(append([]symbol{{"start", ""}, {"exchange", "zero-key"}}, tail...), 1)
 	}
+	// a proved exchange abandoned by a new start (answered or refused), then the key exchange of the abandoned one
+	for _, mid := range [][]symbol{{{"start", ""}}, {{"start", ""}, {"start", ""}}, {{"start", ""}, {"verify", "A-missing"}}, {{"start", ""}, {"step", "7"}}, {{"start", ""}, {"start", ""}, {"verify", "wrong-proof"}},
+		{{"method", "1"}, {"start", ""}}, {{"start", ""}, {"verify", "proof-missing"}, {"start", ""}}} {
+		seq := append([]symbol{{"start", ""}, {"verify", "right"}}, mid...)
+		inprocDo(append(seq, symbol{"exchange", "genuine-for-the-previous-exchange"}), 1)
+	}
 	// a second, PROVED exchange that names the controller stored by the first one and delivers another key
 	for _, e := range []string{"stored-name-new-key-signed-by-stored-key", "key-swapped", "signed-by-other-key"} {
 		inprocDo([]symbol{{"start", ""}, {"verify", "right"}, {"exchange", "genuine"}, {"start", ""}, {"start", ""}, {"verify", "right"}, {"exchange", e}}, 1)
@@ -872,6 +895,7 @@ func main() {
 	r.Floor("inproc_messages", int(r.Counter("inproc_messages")), 1500)
 	r.Floor("fullstack_messages", int(r.Counter("fullstack_messages")), 400)
 	r.Floor("legitimate_stores", int(r.Counter("legitimate_stores")), 10)
+	r.Floor("exchanges_sealed_under_the_key_of_the_previous_proved_exchange", int(r.Counter("exchanges_sealed_under_the_key_of_the_previous_proved_exchange")), 5)
 	r.Floor("exchanges_for_a_stored_name_with_a_new_key_signed_by_the_stored_key", int(r.Counter("exchanges_for_a_stored_name_with_a_new_key_signed_by_the_stored_key")), 20)
 	r.Floor("messages_handled_while_the_entropy_source_fails", int(r.Counter("messages_handled_while_the_entropy_source_fails")), 300)
 	r.Floor("verify_with_public_guess", int(r.Counter("verify_with_public_guess")), 150)
